@@ -12,8 +12,9 @@ use mls_rs::identity::basic::BasicIdentityProvider;
 use mls_rs::mls_rs_codec::MlsEncode;
 use mls_rs_crypto_rustcrypto::RustCryptoProvider;
 
-fn ext_client(jitter: Option<u64>) -> ExternalClient<impl ExtConfig> {
-    let b = ExternalClient::builder().crypto_provider(RustCryptoProvider::default()).identity_provider(BasicIdentityProvider);
+fn ext_client(jitter: Option<u64>, cache: bool) -> ExternalClient<impl ExtConfig> {
+    // `cache == false`: the application keeps the proposals and inserts them by hand (ExternalGroup::insert_proposal_from_message)
+    let b = ExternalClient::builder().crypto_provider(RustCryptoProvider::default()).identity_provider(BasicIdentityProvider).cache_proposals(cache);
     match jitter {
         Some(j) => b.max_epoch_jitter(j).build(),
         None => b.max_epoch_jitter(u64::MAX).build(), // same type; None is modelled by a separate flag below
@@ -25,11 +26,13 @@ struct Obs<E: ExtConfig> {
     group: ExternalGroup<E>,
     jitter: u64,
     lost: bool,
+    /// built with cache_proposals(false): proposals are inserted by the tap
+    manual: bool,
 }
 
 pub struct ObsTap<'q, E: ExtConfig> {
     obs: Vec<Obs<E>>,
-    mk: &'q dyn Fn(Option<u64>) -> ExternalClient<E>,
+    mk: &'q dyn Fn(Option<u64>, bool) -> ExternalClient<E>,
     qa: &'q mut QA,
     old_apps: Vec<usize>,
     pub attached: u64,
@@ -80,6 +83,12 @@ impl<'q, C: MlsConfig, E: ExtConfig> Tap<C> for ObsTap<'q, E> {
                                 }
                             }
                             "proposal" | "commit" => {
+                                if ok && kind == "proposal" && o.manual {
+                                    // the application-side cache of an observer that does not cache on its own
+                                    if o.group.insert_proposal_from_message(w.msgs[k].msg.clone()).is_err() {
+                                        out.push(fail(format!("observer cannot insert the proposal m{k} it just validated")));
+                                    }
+                                }
                                 if !ok && w.msgs[k].epoch == obs_epoch {
                                     out.push(fail(format!(
                                         "observer rejected the {kind} m{k} that the members accept: {}",
@@ -118,6 +127,15 @@ impl<'q, C: MlsConfig, E: ExtConfig> Tap<C> for ObsTap<'q, E> {
             if r != roster {
                 out.push(fail(format!("observer's roster differs from the members' after m{cmi}")));
             }
+            // proposals are bound to their epoch: after the commit the observer's cache equals the members' (empty)
+            let member_cached = g.verif_cached_proposals_in_bundle_order().len();
+            let obs_cached = o.group.get_cached_proposals().len();
+            if obs_cached != member_cached {
+                out.push(fail(format!(
+                    "observer ({}) holds {obs_cached} cached proposals after m{cmi}, the members hold {member_cached}",
+                    if o.manual { "application-side cache" } else { "own cache" }
+                )));
+            }
             // snapshot / restore
             if rng.chance(1, 4) {
                 let bytes = o.group.snapshot().to_bytes().unwrap();
@@ -147,11 +165,12 @@ impl<'q, C: MlsConfig, E: ExtConfig> Tap<C> for ObsTap<'q, E> {
                 7 => u64::MAX,
                 _ => rng.below(6),
             };
-            let client = (self.mk)(Some(jitter));
+            let manual = rng.chance(1, 3);
+            let client = (self.mk)(Some(jitter), !manual);
             match g.group_info_message_allowing_ext_commit(true) {
                 Ok(gi) => match std::panic::catch_unwind(std::panic::AssertUnwindSafe(|| client.observe_group(gi, None, None))) {
                     Ok(Ok(group)) => {
-                        self.obs.push(Obs { client, group, jitter, lost: false });
+                        self.obs.push(Obs { client, group, jitter, lost: false, manual });
                         self.attached += 1;
                     }
                     Ok(Err(e)) => out.push(fail(format!("observer cannot start from the members' GroupInfo of epoch {epoch}: {}", err_class(&e)))),
@@ -181,7 +200,7 @@ pub fn run(o: &Opts) -> i32 {
     for h in 0..n {
         let hseed = seedgen.next();
         let mkc = |s: &Setup, hd: &Handles, id, sk| mk_client(s, hd, id, sk);
-        let mke = |j: Option<u64>| ext_client(j);
+        let mke = |j: Option<u64>, cache: bool| ext_client(j, cache);
         let mut tap = ObsTap { obs: vec![], mk: &mke, qa: &mut qa, old_apps: vec![], attached: 0, compared: 0, restored: 0, deliveries: 0 };
         let mut treeqa = QA::create(&dir, "c16-tree");
         {
